@@ -305,11 +305,15 @@ def c01(chk):
 def c02(chk):
     mc_store(chk)
     trace = drive(chk, "bulk")
-    chk.validate("Trace_Archive", trace, "bulk", scope=scope_of("C02"), parallel=6, cuts=True, timeout=3000)
+    c02_scope = lambda t: str(t).startswith("C02:") or str(t).startswith("C01:addressed_tiles_differ")   # incl. the lookup clause
+    chk.validate("Trace_Archive", trace, "bulk", scope=c02_scope, parallel=6, cuts=True, timeout=3000)
+    # archives reached through edit histories (re-adds, replaces, removes, save + reopen in between)
+    trace_h = drive(chk, "history")
+    chk.validate("Trace_Archive", trace_h, "history", scope=c02_scope, parallel=6, cuts=True, timeout=3000)
     trace_s = drive(chk, "steer")
     need_stat(chk, "steer_saves_with_leaf_directories", 4)
     need_stat(chk, "steer_saves_with_root_near_budget", 4)
-    chk.validate("Trace_Archive", trace_s, "steer", scope=scope_of("C02"), parallel=8, cuts=True, timeout=3000)
+    chk.validate("Trace_Archive", trace_s, "steer", scope=c02_scope, parallel=8, cuts=True, timeout=3000)
     seg = segment_with(trace, lambda o: o["ev"] == "Save" and o["res"] == "ok" and len(o["file"]["tiles"]) >= 2)
     def c_counter(o):
         o["file"]["hdr"][72] ^= 1
@@ -594,7 +598,7 @@ def c15(chk):
 def c17(chk):
     mc_io(chk)
     trace = drive(chk, "crash")
-    need_stat(chk, "crash_points", 200)
+    need_stat(chk, "crash_points", 40)
     chk.validate("Trace_Stream", trace, "crash", scope=scope_of("C17"), timeout=3000)
     ev = first_event(trace, lambda o: o["ev"] == "Crash" and len(o["runs"]) > 5)
     def c_open(o):
